@@ -20,6 +20,7 @@ use std::fs;
 use syn::{Block, Expr, ImplItem, Item, Stmt};
 
 mod aut;
+mod ptrx;
 
 // ---------------------------------------------------------------- helpers
 
@@ -78,7 +79,7 @@ fn collect_impl_items(prefix: &str, items: &[ImplItem], out: &mut Vec<Func>) {
     }
 }
 
-fn last_brace_group(ts: TokenStream) -> Option<TokenStream> {
+pub(crate) fn last_brace_group(ts: TokenStream) -> Option<TokenStream> {
     let mut last = None;
     for t in ts {
         if let TokenTree::Group(g) = t {
@@ -594,7 +595,7 @@ fn skeleton(f: &Func, mode: Mode) -> Sk {
 // ---------------------------------------------------------------- size dispatch trees (Gen_Ptr.v)
 
 /// decision tree on size_of::<T>(): PIf (op, rhs) then else | PLeaf actions
-enum PT {
+pub(crate) enum PT {
     Leaf(Vec<String>),
     If(String, String, Box<PT>, Box<PT>),
     Unsupported(String),
@@ -637,7 +638,7 @@ fn size_cond(c: &Expr) -> Option<(String, String)> {
     None
 }
 
-fn leaf_actions(stmts: &[Stmt]) -> Vec<String> {
+pub(crate) fn leaf_actions(stmts: &[Stmt]) -> Vec<String> {
     let f = Func { name: String::new(), block: Block { brace_token: Default::default(), stmts: stmts.to_vec() } };
     let sk = skeleton(&f, Mode::Ptr);
     sk.lines.iter().map(|l| l.trim().to_string()).filter(|l| l != "}").collect()
@@ -999,20 +1000,21 @@ fn main() {
     {
         let mut funcs = vec![];
         collect_funcs(&parsed["pointer.rs"], &mut funcs);
+        let helpers = ptrx::helpers_of(&parsed["pointer.rs"]);
         for fun in &funcs {
             if is_size_pred(&fun.name) {
                 continue;
             }
-            let t = ptree_of_stmts(&fun.block.stmts);
+            let t = ptrx::function_tree(&helpers, &fun.block);
             prow.push(format!("  ({}, {})", coq_str(&format!("pointer.{}", fun.name)), coq_ptree(&t)));
         }
     }
     for f in ["lib.rs", "future.rs"] {
         let mut funcs = vec![];
         collect_funcs(&parsed[f], &mut funcs);
+        let helpers = ptrx::helpers_of(&parsed[f]);
         for fun in &funcs {
-            let mut ds = vec![];
-            find_dispatches(&fun.block, &mut ds);
+            let ds = ptrx::sites_of(&helpers, &fun.block);
             for (i, t) in ds.iter().enumerate() {
                 prow.push(format!("  ({}, {})", coq_str(&format!("{}.{}#{}", f.trim_end_matches(".rs"), fun.name, i)), coq_ptree(t)));
             }
